@@ -22,6 +22,8 @@ def main(tier, seed, replay):
         k.validate_profile("every", 60)
         k.validate_profile("rel", 80)
         k.replay_behaviours("EXH_Mut_c1", mc_consts(kinds=("spawn", "insert", "mutate", "remove"), ops=2, ticks=2, idle=1, cframes=1), 0, invariants=inv)
+        # an idle server is silent under a visibility policy too (repeated set_visibility calls must not re-send)
+        k.replay_behaviours("EXH_Vis_white", mc_consts(policy="white", kinds=("spawn", "despawn", "setvis"), ops=4, ticks=2, idle=1, cframes=0), 0, invariants=inv)
     else:
         k.model_check("MC_Mut", mc_consts(ops=4, ticks=3, idle=2), inv, timeout=3000)
         k.model_check("MC_Mut2", mc_consts(ents=("e1", "e2"), ops=3, ticks=3, kinds=("spawn", "mutate", "insert")), inv, timeout=3000)
@@ -37,6 +39,10 @@ def main(tier, seed, replay):
         k.validate_profile("rel", 1500)
         k.validate_profile("rel_split", 1000)
         k.validate_profile("rel_vis", 1000, known=("F17",))
+        k.validate_profile("vis_white", 1000)
+        k.validate_profile("vis_black", 1000)
+        for pol in ("white", "black"):
+            k.replay_behaviours(f"EXH_Vis_{pol}", mc_consts(policy=pol, kinds=("spawn", "despawn", "setvis"), ops=4, ticks=2, idle=1, cframes=0), 0, invariants=inv)
         k.replay_behaviours("EXH_Mut_c1", mc_consts(kinds=("spawn", "insert", "mutate", "remove"), ops=3, ticks=2, idle=1, cframes=1), 0, invariants=inv, timeout=3000)
         k.replay_behaviours("EXH_Timeout", mc_consts(kinds=("spawn", "mutate", "timeout"), ops=3, ticks=3, idle=1, cframes=1), 0, invariants=inv, timeout=3000)
     k.selftest(tr)
